@@ -18,6 +18,7 @@ type Params struct {
 	Late       int  // sends issued after the first episode has settled
 	Request    bool // a requester on A asks an echo actor on B
 	Actor      bool // one sender is an actor on A (two c.Send from one Receive)
+	SameID     bool // with WithSender: EVERY message carries a sender, alternating between two PIDs that have the same id on different addresses
 	SelfSender bool // with WithSender: the sender PID given is the target PID itself ("reply to yourself")
 	Peers      int  // 2: a second peer C; every second message of a sender goes to actor t1 on C (one writer per address)
 	NoEvents   bool // controlled leg: the sending node's event stream is detached too (the oracle then only looks at deliveries)
@@ -28,6 +29,9 @@ func (p Params) String() string {
 	s := fmt.Sprintf("T%dx%dtg%dsnd%vfail%dlate%dreq%vact%v", p.Senders, p.PerT, p.Targets, p.WithSender, p.FailDials, p.Late, p.Request, p.Actor)
 	if p.SelfSender {
 		s += "self"
+	}
+	if p.SameID {
+		s += "sameid"
 	}
 	if p.Restart {
 		s += "restart"
@@ -55,6 +59,7 @@ var Up = []Params{
 	{Senders: 1, PerT: 1, Targets: 1, Late: 1, Restart: true},
 	{Senders: 1, PerT: 1, Targets: 1, Late: 1, Restart: true, NoEvents: true},
 	{Senders: 1, PerT: 4, Targets: 2, WithSender: true, Peers: 2},
+	{Senders: 1, PerT: 4, Targets: 1, WithSender: true, SameID: true},
 }
 
 var Dn = []Params{
